@@ -142,6 +142,12 @@ def chain_case(rng, k, flavour=None):
     L = ["case %d %s" % (k, flavour), "screen %d %d %d %d %d %d %d %d %d %d" % ((W, H) + fmt + (tc,)),
          "fb " + " ".join("%x" % p for r in fb for p in r)]
     ncl = rng.choice([1, 2, 3, 4])
+    # configuration axis: screen->deferPtrUpdateTime > 0 = pure motions are remembered and delivered later by
+    # rfbUpdateClient (`flush` lets the time pass; values far above the duration of a case)
+    defer = rng.choice([0, 0, 5000, 60000])
+    if defer:
+        L.append("deferptr %d" % defer)
+    btn = {}
     if flavour == "mixed":
         # scaled / unscaled x soft-cursor / RichCursor / XCursor clients, a cursor on the screen: the server paints
         # it into the framebuffer AND into every scaled copy around the updates of soft-cursor clients
@@ -184,8 +190,13 @@ def chain_case(rng, k, flavour=None):
             L.append("fill %d %d %d %d %x" % (x1, y1, x2, y2, rng.randint(0, pm)))
         elif r < 0.80:
             w2, h2 = dims[i]
-            L.append("ptr %d %d %d" % (i, rng.choice([0, max(w2 - 1, 0), rng.randint(0, max(w2 - 1, 0))]),
-                                       rng.choice([0, max(h2 - 1, 0), rng.randint(0, max(h2 - 1, 0))])))
+            for _ in range(rng.choice([1, 1, 2, 3])):
+                b = rng.choice([btn.get(i, 0), btn.get(i, 0), 0, 1, 5])
+                btn[i] = b
+                L.append("ptr %d %d %d %d" % (i, rng.choice([0, max(w2 - 1, 0), rng.randint(0, max(w2 - 1, 0))]),
+                                              rng.choice([0, max(h2 - 1, 0), rng.randint(0, max(h2 - 1, 0))]), b))
+            if rng.random() < 0.7:
+                L.append("flush %d" % rng.choice(alive))
         elif r < 0.88 and len(alive) > 1:
             L.append("gone %d" % i)
             alive.remove(i)
@@ -211,6 +222,89 @@ def chain_case(rng, k, flavour=None):
     if flavour in ("sess", "mixed"):
         for i in alive:
             L.append("upd %d 0 0 0 %d %d" % ((i,) + dims[i]))
+    return L
+
+
+def ptr_case(rng, k):
+    """pointer events of scaled clients, delivered at once and deferred (motion coalescing): larger screens whose
+    width and height ratios differ, every factor, pure motions / button changes / several clients"""
+    W = rng.choice([3, 7, 10, 29, 33, 64, 100, 101, 120, rng.randint(2, 120)])
+    H = rng.choice([2, 5, 11, 31, 77, 90, 200, rng.randint(2, 200)])
+    fmt = FORMATS[0]
+    L = ["case %d ptr" % k, "screen %d %d %d %d %d %d %d %d %d 1" % ((W, H) + fmt)]
+    defer = rng.choice([0, 5000, 5000, 60000])
+    if defer:
+        L.append("deferptr %d" % defer)
+    ncl = rng.choice([1, 1, 2, 3])
+    for i in range(ncl):
+        L.append("client %d" % i)
+    dims = {i: (W, H) for i in range(ncl)}
+    btn = {}
+    m = min(W, H)
+    def factor():
+        nd = [f for f in range(2, m + 1) if W * (H // f) != H * (W // f)]       # ratios differ
+        return rng.choice([rng.choice(nd) if nd else 1, rng.choice(nd) if nd else 2, rng.randint(1, m), m, 1, 2, 3])
+    for i in range(ncl):
+        if rng.random() < 0.85:
+            n = min(factor(), m)
+            L.append("scale %d %d %d" % (i, n, rng.choice([0, 0, 1]))); dims[i] = (W // n, H // n)
+    for _ in range(rng.choice([6, 12, 20])):
+        i = rng.randrange(ncl)
+        r = rng.random()
+        w2, h2 = dims[i]
+        if r < 0.62:
+            b = rng.choice([btn.get(i, 0)] * 4 + [0, 1, 2])
+            btn[i] = b
+            L.append("ptr %d %d %d %d" % (i, rng.choice([0, w2 - 1, w2 - 1, rng.randint(0, w2 - 1)]),
+                                          rng.choice([0, h2 - 1, h2 - 1, rng.randint(0, h2 - 1)]), b))
+        elif r < 0.92:
+            L.append("flush %d" % rng.randrange(ncl))
+        else:
+            n = min(factor(), m)
+            L.append("scale %d %d 0" % (i, n)); dims[i] = (W // n, H // n)
+    for i in range(ncl):
+        L.append("flush %d" % i)
+    return L
+
+
+def copy_case(rng, k):
+    """rfbDoCopyRect with scaled and unscaled clients, with and without the CopyRect encoding: every scaled copy and
+    every client's picture (kept across incremental updates, CopyRect rectangles applied) must follow"""
+    fmt = rng.choice([f for f in FORMATS])
+    bpp = fmt[0]
+    W, H = rng.choice([4, 6, 7, 9, 10, 12, 16]), rng.choice([3, 4, 5, 6, 8, 11])
+    pm = (1 << (8 * bpp)) - 1
+    fb = [[rng.randint(0, pm) for _ in range(W)] for _ in range(H)]
+    L = ["case %d copy" % k, "screen %d %d %d %d %d %d %d %d %d 1" % ((W, H) + fmt),
+         "fb " + " ".join("%x" % p for r in fb for p in r)]
+    ncl = rng.choice([1, 2, 3])
+    dims = {}
+    for i in range(ncl):
+        L.append(("client %d %s" % (i, rng.choice(["copyrect", "copyrect", ""]))).rstrip())
+        dims[i] = (W, H)
+    for i in range(ncl):
+        if rng.random() < 0.75:
+            n = rng.choice([2, 2, 3, rng.randint(1, min(W, H))])
+            L.append("scale %d %d %d" % (i, n, rng.choice([0, 0, 1]))); dims[i] = (W // n, H // n)
+    for i in range(ncl):
+        L.append("upd %d 0 0 0 %d %d" % ((i,) + dims[i]))
+    for _ in range(rng.choice([1, 2, 4])):
+        if rng.random() < 0.75:
+            x1, y1, x2, y2 = rand_rect_in(rng, W, H)
+            dx, dy = rng.randint(x2 - W, x1), rng.randint(y2 - H, y1)
+            if rng.random() < 0.3:
+                dx = 0
+            elif rng.random() < 0.3:
+                dy = 0
+            L.append("copy %d %d %d %d %d %d" % (x1, y1, x2, y2, dx, dy))
+        else:
+            x1, y1, x2, y2 = rand_rect_in(rng, W, H)
+            L.append("fill %d %d %d %d %x" % (x1, y1, x2, y2, rng.randint(0, pm)))
+        for i in range(ncl):
+            if rng.random() < 0.8:
+                L.append("upd %d 1 0 0 %d %d" % ((i,) + dims[i]))
+    for i in range(ncl):
+        L.append("upd %d 1 0 0 %d %d" % ((i,) + dims[i]))
     return L
 
 
@@ -258,6 +352,10 @@ def gen_cases(ctx):
             cases.append(geom_case(rng, k, exhaustive=(W, n))); k += 1
     for _ in range(500 if q else 8000):
         cases.append(chain_case(rng, k)); k += 1
+    for _ in range(150 if q else 3000):
+        cases.append(ptr_case(rng, k)); k += 1
+    for _ in range(120 if q else 2500):
+        cases.append(copy_case(rng, k)); k += 1
     for _ in range(20 if q else 200):
         cases.append(cnt_case(rng, k)); k += 1
     for _ in range(6 if q else 30):
@@ -432,14 +530,14 @@ def run_impl(cexe, cases):
 
 
 REPAIRS = ["zerofix", "gridfix"]      # /repo commits 8e7b6f1, d58ea84 (were notes/fix_C17_1.diff, fix_C17_2.diff)
-PROPOSED = []
+PROPOSED = ["copyfix"]                # notes/fix_C17_3.diff (F17c): scaled copies refreshed by rfbScheduleCopyRegion
 
 
 def is_sweep(c):
     return c[0].split()[2:3] == ["sweep"]
 
 
-def run_model(ctx, mexe, cases, zerofix=False, gridfix=False):
+def run_model(ctx, mexe, cases, zerofix=False, gridfix=False, copyfix=False):
     sweeps = [tuple(int(t) for t in c[0].split()[3:5]) for c in cases if is_sweep(c)]
     script = script_of([c for c in cases if not is_sweep(c)])
     rc, qo, qe = vlib.run_driver([mexe, "collect", "-"] + (["zerofix"] if zerofix else []), script, timeout=3000,
@@ -447,7 +545,8 @@ def run_model(ctx, mexe, cases, zerofix=False, gridfix=False):
     queries = sorted(set(l[2:] for l in qo.split("\n") if l.startswith("Q ")))
     tpath = os.path.join(ctx.scratch, "float_table.txt")
     table = float_table(ctx, queries, tpath, sweeps, gridfix)
-    rc, mo, me = vlib.run_driver([mexe, "run", tpath] + (["zerofix"] if zerofix else []), script, timeout=3000,
+    rc, mo, me = vlib.run_driver([mexe, "run", tpath] + (["zerofix"] if zerofix else ["nozerofix"]) +
+                                 (["copyfix"] if copyfix else []), script, timeout=3000,
                                  unlimited_stack=True)
     return mo, me, table
 
@@ -464,6 +563,8 @@ def oracle_case(script, impl, crash=None):
     cl = {}          # k -> dict(alive, dims, palm)
     ncl = 0
     have_cursor = False
+    defer, owner = 0, None
+    copied = False      # a rfbDoCopyRect happened while some client was scaled (F17c)
     it = iter(impl)
     for op in script[1:]:
         p = op.split()
@@ -483,6 +584,40 @@ def oracle_case(script, impl, crash=None):
             tc = int(p[10])
             fb = [[0] * W for _ in range(H)]
             cl, ncl = {}, 0
+            defer, owner = 0, None
+        elif p[0] == "deferptr":
+            defer = int(p[1])
+        elif p[0] in ("ptr", "flush"):
+            # the application must see the origin of the source block of the client pixel (x with the width ratio,
+            # y with the height ratio), at once or - a pure motion with deferPtrUpdateTime > 0 - at the flush;
+            # only the newest remembered motion, once; nothing from others while one client holds a button
+            k = int(p[1])
+            d = cl.get(k)
+            want = None
+            if d and d["alive"]:
+                if p[0] == "ptr":
+                    x, y, b = int(p[2]), int(p[3]), (int(p[4]) if len(p) > 4 else 0)
+                    if owner is None or owner == k:
+                        owner = k if b else None
+                        w2, h2 = d["dims"]
+                        ev = "%d,%d b=%d" % (x * W // w2, y * H // h2, b) if w2 and h2 else None
+                        if b != d.get("btn", 0) or defer == 0:
+                            want, d["pend"] = ev, None
+                        else:
+                            d["pend"] = ev
+                        d["btn"] = b
+                        how = "at once" if want else "deferred"
+                else:
+                    want, d["pend"] = d.get("pend"), None
+                    how = "deferred"
+                if d["dims"][0] and d["dims"][1]:
+                    got = line.split(" cb=", 1)[1] if " cb=" in line else line
+                    if got != (want or "-"):
+                        w2, h2 = d["dims"]
+                        errs.append(("pointer event of a %dx%d view of a %dx%d screen (%s, deferPtrUpdateTime=%d): '%s' gave %s, expected %s" %
+                                     (w2, h2, W, H, how if want else "none due", defer, op, got, want or "-"),
+                                     {"kind": "pointer", "what": "deferred" if p[0] == "flush" else "immediate",
+                                      "divides": W % w2 == 0 and H % h2 == 0, "defer": defer > 0}))
         elif p[0] == "fb":
             v = [int(t, 16) for t in p[1:]]
             fb = [v[y * W:(y + 1) * W] for y in range(H)]
@@ -529,11 +664,21 @@ def oracle_case(script, impl, crash=None):
             for y in range(y1, y2):
                 for x in range(x1, x2):
                     fb[y][x] = int(p[5], 16)
+        if p[0] == "copy":
+            x1, y1, x2, y2, dx, dy = (int(t) for t in p[1:7])
+            old = [r[:] for r in fb]
+            for y in range(y1, y2):
+                for x in range(x1, x2):
+                    fb[y][x] = old[y - dy][x - dx]
+            if any(d["alive"] and d["dims"] != (W, H) for d in cl.values()):
+                copied = True
         if p[0] == "scale":
             k, n, palm = int(p[1]), int(p[2]), int(p[3])
             if k in cl and cl[k]["alive"]:
                 if n == 0:
                     cl[k]["alive"] = False
+                    if owner == k:
+                        owner = None
                 else:
                     want = (W // n, H // n)
                     m = re.match(r"scale msg=(\S*) ", line)
@@ -563,12 +708,14 @@ def oracle_case(script, impl, crash=None):
             k = int(p[1])
             if k in cl:
                 cl[k]["alive"] = False
+            if owner == k:
+                owner = None
         if p[0] == "upd" and " app=" in line:
             ma = re.search(r" app=(\S*) main=", line)
             if ma and parse_dump(ma.group(1)) != fb:
                 errs.append(("application framebuffer is not restored after an update (cursor left in it)",
                              {"kind": "pixels", "what": "app_fb", "divides": True}))
-        if p[0] in ("scale", "fill", "gone", "client", "upd") and " chain=[" in line:
+        if p[0] in ("scale", "fill", "gone", "client", "upd", "copy") and " chain=[" in line:
             m = re.search(r"main=(\d+)x(\d+):(-?\d+) chain=\[(.*?)\] cl=\[(.*?)\]", line)
             if not m:
                 continue
@@ -592,7 +739,8 @@ def oracle_case(script, impl, crash=None):
                         bad = [(x, y) for y in range(h2) for x in range(w2) if got[y][x] != want[y][x]]
                         errs.append(("scaled screen %s (in use) is not the box-filtered framebuffer after '%s' (%d pixels, first %s)" %
                                      (dims, p[0], len(bad), bad[0]),
-                                     {"kind": "pixels", "what": "filter", "divides": W % w2 == 0 and H % h2 == 0, "op": p[0]}))
+                                     {"kind": "pixels", "what": "filter", "divides": W % w2 == 0 and H % h2 == 0, "op": p[0],
+                                      "copied": copied}))
         if p[0] == "upd" and " size=" in line:
             k = int(p[1])
             m = re.search(r" size=(\d+)x(\d+) pic=(\S*) app=", line)
@@ -601,16 +749,28 @@ def oracle_case(script, impl, crash=None):
                 x, y, w, h = (int(t) for t in r)
                 if x + w > w2 or y + h > h2 or w == 0 or h == 0:
                     errs.append(("update rectangle %s is not a non-empty rectangle inside the scaled size %dx%d" % ((x, y, w, h), w2, h2),
-                                 {"kind": "geometry", "what": "rect_outside"}))
+                                 {"kind": "geometry", "what": "rect_outside", "copied": copied}))
             if "OUTSIDE" in line or "ENC" in line or "MALFORMED" in line or "EXTRA" in line:
-                errs.append(("malformed update for a scaled client: " + line[:120], {"kind": "geometry", "what": "stream"}))
+                errs.append(("malformed update for a scaled client: " + line[:120], {"kind": "geometry", "what": "stream", "copied": copied}))
             soft_with_cursor = have_cursor and k in cl and not cl[k].get("shape")      # cursor painted into its picture: C15's
-            if p[2] == "0" and [int(t) for t in p[3:7]] == [0, 0, w2, h2] and w2 > 0 and h2 > 0 and not soft_with_cursor:
+            full = [int(t) for t in p[3:7]] == [0, 0, w2, h2] and w2 > 0 and h2 > 0
+            if k in cl and full and p[2] == "0":
+                cl[k]["synced"] = (w2, h2)          # from here on the harness keeps this client's picture
+            # a full-size request, non-incremental or incremental on a picture that is complete: the client must now
+            # hold the box filter of the framebuffer (CopyRect rectangles are applied to its picture)
+            if full and not soft_with_cursor and (p[2] == "0" or (k in cl and cl[k].get("synced") == (w2, h2))):
                 got = parse_dump(m.group(3))
                 want = ref_filter(fb, W, H, fmt, tc, w2, h2)
                 if got != want:
-                    errs.append(("client picture after a full update is not the box-filtered (cursor-free) framebuffer",
-                                 {"kind": "pixels", "what": "picture", "divides": W % w2 == 0 and H % h2 == 0}))
+                    bad = [(x, y) for y in range(h2) for x in range(w2) if got[y][x] != want[y][x]]
+                    errs.append(("client picture (%dx%d of %dx%d) after a full %s update is not the box-filtered (cursor-free) "
+                                 "framebuffer (%d pixels, first %s)%s" %
+                                 (w2, h2, W, H, "incremental" if p[2] == "1" else "non-incremental", len(bad), bad[0],
+                                  "; CopyRect rectangles sent: %s" % re.findall(r" c=(\S+)", line) if " c=" in line else ""),
+                                 {"kind": "pixels", "what": "picture", "divides": W % w2 == 0 and H % h2 == 0,
+                                  "copied": copied}))
+        if p[0] == "scale" and int(p[1]) in cl:
+            cl[int(p[1])]["synced"] = None
     return errs
 
 
@@ -649,6 +809,12 @@ def check(ctx):
         return out
     mm0 = mismatches_of(mby_head)
     mismatches, chosen = mm0, list(REPAIRS)
+    if mm0 and PROPOSED:    # has the proposed repair been applied to the library?
+        mo1, _, t1 = run_model(ctx, mexe, cases, zerofix=True, gridfix=True, copyfix=True)
+        mm1 = mismatches_of({h: ls for (h, ls) in vlib.split_cases(mo1)})
+        if len(mm1) < len(mm0):
+            mm0 = mismatches = mm1
+            chosen = list(REPAIRS) + PROPOSED
     if mm0:     # would the model with one repair dropped agree?  -> regression of that commit
         for trial in (["zerofix"], ["gridfix"], []):
             mo1, _, t1 = run_model(ctx, mexe, cases, zerofix="zerofix" in trial, gridfix="gridfix" in trial)
